@@ -101,6 +101,9 @@ def idealQ : Q := { quirks := ideal, guard := false }
 def step (q : Q) (toks : List String) (impl : String) : Res :=
   let it := words impl
   match toks with
+  | "retain" :: name :: _ =>
+    -- "decoding yields that value": the object decoded before the latest one, kept alive, still reads as it did
+    { model := "changed=0", monitor := if impl == "changed=0" then [] else ["decoded_value_stable"], tags := ["retain", name], nontrivial := false }
   | "val" :: name :: rest =>
     match Schemas.byName q.guard name with
     | none => { model := "unknown-type", tags := ["unknown-type"], nontrivial := false }
